@@ -20,7 +20,10 @@ Levels == {"global", "tparam", "tlocal", "fparam", "fblock", "nested", "iter", "
    declarations of its body block: declaring n in both is a duplicate definition *)
 Admissible(D) == ~({"tparam", "tlocal"} \subseteq D) /\ ~({"fparam", "fblock"} \subseteq D)
 
-S(id, chain, before, qual) == [id |-> id, chain |-> chain, before |-> before, qual |-> qual]
+S(id, chain, before, qual) == [id |-> id, chain |-> chain, before |-> before, qual |-> qual, hidden |-> {}]
+(* a site at which the builder's frame stack lacks some of the scopes that lexically enclose it: the parameter list under
+   construction lives in a detached frame (`params`) until the function body / template body begins *)
+SH(id, chain, before, hidden) == [id |-> id, chain |-> chain, before |-> before, qual |-> FALSE, hidden |-> hidden]
 Sites == {
   S(117, <<"global">>, {}, FALSE),                                        \* global initialiser BEFORE the global declaration of n
   S(118, <<"global">>, {"global"}, FALSE),                                \* ... after it
@@ -42,22 +45,34 @@ Sites == {
   S(116, <<"global">>, {"global"}, FALSE),                                \* guard in a second template that declares nothing
   S(119, <<"global">>, {"global"}, FALSE),                                \* instantiation argument in the system block
   S(120, <<"global">>, {"global"}, FALSE),                                \* query, unqualified
-  S(121, <<"tparam", "tlocal">>, {"tparam", "tlocal"}, TRUE) }             \* query, P.n
+  S(121, <<"tparam", "tlocal">>, {"tparam", "tlocal"}, TRUE),              \* query, P.n
+  (* occurrences inside TYPES (range bounds, array sizes) *)
+  SH(130, <<"global", "tparam", "tlocal", "fparam">>, {"global", "tparam", "tlocal", "fparam"}, {"fparam"}),   \* type of a LATER function parameter: void f(T n, int[0,n] p)
+  SH(131, <<"global", "tparam">>, {"global", "tparam"}, {"tparam"}),                                            \* type of a LATER template parameter
+  S(132, <<"global", "tparam", "tlocal", "fparam", "fblock">>, {"global", "tparam", "tlocal", "fparam", "fblock"}, FALSE),   \* type of a function local
+  S(133, <<"global">>, {"global"}, FALSE),                                                                      \* type of a global variable
+  S(134, <<"global", "tparam", "tlocal">>, {"global", "tparam", "tlocal"}, FALSE),                              \* array size of a template local
+  S(135, <<"global", "tparam", "tlocal", "select">>, {"global", "tparam", "tlocal", "select"}, FALSE),          \* type of a LATER select binder
+  S(136, <<"global", "tparam", "tlocal", "fparam", "fblock", "quant">>, {"global", "tparam", "tlocal", "fparam", "fblock", "quant"}, FALSE),   \* binder type of a nested quantifier
+  S(137, <<"global", "tparam", "tlocal", "fparam", "fblock", "iter">>, {"global", "tparam", "tlocal", "fparam", "fblock", "iter"}, FALSE) }    \* binder type of a nested iteration
 
 LastOk(seq, ok(_)) == LET hits == {q \in 1..Len(seq) : ok(seq[q])} IN IF hits = {} THEN "unknown" ELSE seq[CHOOSE q \in hits : \A r \in hits : r <= q]
 LexBind(D, s) == LastOk(s.chain, LAMBDA l : l \in D /\ l \in s.before)
 
 (* the builder: frames pushed so far at the site, innermost last; a frame contains n iff decl_var / decl_parameter / the binder
    callback for that level ran before the site (callbacks run in textual order) *)
-FrameHolds(D, s, l) == l \in D /\ l \in s.before
+FrameHolds(D, s, l) == l \in D /\ l \in s.before /\ l \notin s.hidden
 RECURSIVE Walk(_, _, _)
 Walk(D, s, i) == IF i = 0 THEN "unknown" ELSE IF FrameHolds(D, s, s.chain[i]) THEN s.chain[i] ELSE Walk(D, s, i - 1)
 ImplBind(D, s) == Walk(D, s, Len(s.chain))
 
 Universe == {D \in SUBSET Levels : Admissible(D)}
 Agree == \A D \in Universe, s \in Sites : ImplBind(D, s) = LexBind(D, s)
-Cases == {[d |-> D, sites |-> {[id |-> s.id, bind |-> LexBind(D, s)] : s \in Sites}] : D \in Universe}
-ASSUME PrintT(<<"EMIT", ToJson([agree |-> Agree, n |-> Cardinality(Universe) * Cardinality(Sites)])>>)
+(* where the frame stack is the lexical chain the two agree; the disagreements are exactly the detached-parameter-frame sites *)
+AgreeOnStack == \A D \in Universe, s \in Sites : s.hidden = {} => ImplBind(D, s) = LexBind(D, s)
+NDisagree == Cardinality({<<D, s>> \in Universe \X Sites : ImplBind(D, s) # LexBind(D, s)})
+Cases == {[d |-> D, sites |-> {[id |-> s.id, bind |-> LexBind(D, s), impl |-> ImplBind(D, s)] : s \in Sites}] : D \in Universe}
+ASSUME PrintT(<<"EMIT", ToJson([agree |-> Agree, agreeonstack |-> AgreeOnStack, ndisagree |-> NDisagree, n |-> Cardinality(Universe) * Cardinality(Sites)])>>)
 ASSUME \A cse \in Cases : PrintT(<<"EMIT", ToJson([d |-> SetToSeq(cse.d), sites |-> SetToSeq(cse.sites)])>>)
 (* ---------------------------------------------------------------- type names
    A type name `tn` may be declared (typedef) at the levels global, tlocal, fblock (function body) and nested (inner block);
